@@ -42,13 +42,18 @@ class B(dict):
 # alphabets
 
 
+def _small(alpha):
+    """`alpha` names the key alphabet: "small"/"quick" (2 segments, key depth 2) or "large"/"thorough"."""
+    return alpha in ("quick", "small")
+
+
 def segments(tier):
-    return ["a", "items"] if tier == "quick" else ["a", "b", "items", "get"]
+    return ["a", "items"] if _small(tier) else ["a", "b", "items", "get"]
 
 
 def key_universe(tier):
     segs = segments(tier)
-    depth = 2 if tier == "quick" else 3
+    depth = 2 if _small(tier) else 3
     keys = []
     for d in range(1, depth + 1):
         keys += [".".join(p) for p in itertools.product(segs, repeat=d)]
@@ -56,7 +61,7 @@ def key_universe(tier):
 
 
 def op_keys(tier):
-    if tier == "quick":
+    if _small(tier):
         return key_universe(tier)
     # thorough: all keys of depth <= 2 over 4 segments plus the depth-3 keys over the two quick segments
     segs = segments(tier)
@@ -632,19 +637,14 @@ def run_case(case):
     return [{"signature": s, "detail": d} for s, d in devs]
 
 
-def explore(ctx):
+def bfs(ctx, tier, max_depth, state_cap, totals):
+    """Level-synchronous BFS over one alphabet; every state is observed, states below max_depth are expanded."""
     import json
 
-    tier = ctx.tier
     ops = operations(tier)
-    max_depth = 3 if ctx.quick else 4
-    state_cap = 6_000 if ctx.quick else 250_000
     seen = {json.dumps(canon_model(B())): []}
     frontier = [[]]
-    states = transitions = 0
     per_depth = []
-    obs_states = 0
-    nontrivial = set()
     closed = False
     caps_hit = []
     depth_completed = 0
@@ -653,56 +653,79 @@ def explore(ctx):
         nxt = []
         batch = frontier
         if do_expand and len(seen) > state_cap:
-            caps_hit.append(f"state cap {state_cap} reached before expanding depth {depth}; states of this depth are observed but not expanded")
+            caps_hit.append(
+                f"alphabet {tier}: state cap {state_cap} reached before expanding depth {depth}; "
+                "states of this depth are observed but not expanded"
+            )
             do_expand = False
         for out in ctx.pmap(expand_state, [(h, tier, do_expand) for h in batch]):
-            states += 1
-            obs_states += 1
-            hist_ops = [ops_i for ops_i in out["history"]]
+            totals["states"] += 1
+            hist_ops = out["history"]
             for sig, detail in out["obs"]:
                 ctx.deviation(sig, {"tier": tier, "history": hist_ops, "op": None}, detail)
-            transitions += out["trans"]
+            totals["transitions"] += out["trans"]
             for i, succ, devs in out["succ"]:
                 for sig, detail in devs:
                     ctx.deviation(sig, {"tier": tier, "history": hist_ops, "op": ops[i]}, detail)
                 if succ is not None and succ not in seen:
                     seen[succ] = hist_ops + [ops[i]]
                     nxt.append(seen[succ])
-                    nontrivial.add(succ)
         per_depth.append(len(batch))
         if do_expand:
             depth_completed = depth + 1
-        # deterministic frontier order regardless of worker scheduling
-        nxt.sort(key=lambda h: json.dumps(h))
+        nxt.sort(key=lambda h: json.dumps(h))  # deterministic frontier order regardless of worker scheduling
         frontier = nxt
         if not frontier:
             closed = do_expand
             break
         if not do_expand:
             break
-    for h in ([[]] + [seen[k] for k in list(seen)[1:4]]):
-        ctx.sample({"history": h})
-    ctx.sample({"operation_alphabet_size": len(ops), "first_ops": ops[:5], "last_ops": ops[-5:]})
+    for h in [seen[k] for k in list(seen)[1:4]]:
+        ctx.sample({"alphabet": tier, "history": h})
+    ctx.sample({"alphabet": tier, "operation_alphabet_size": len(ops), "first_ops": ops[:3], "last_ops": ops[-3:]})
+    totals["nontrivial"] += len(seen) - 1
+    totals["max_history"] = max(totals["max_history"], max(len(h) for h in seen.values()))
+    totals["runs"].append(
+        {
+            "alphabet": tier,
+            "segments": segments(tier),
+            "op_keys": len(op_keys(tier)),
+            "observer_keys": len(key_universe(tier)),
+            "operations": len(ops),
+            "depth_bound": max_depth,
+            "depth_completed": depth_completed,
+            "states_per_depth": per_depth,
+            "distinct_states": len(seen),
+            "closed": closed,
+            "caps_hit": caps_hit,
+        }
+    )
+    return caps_hit
+
+
+def explore(ctx):
+    # quick: small alphabet (2 segments incl. a method-name clash, key depth 2), all histories of length <= 3.
+    # thorough: the same alphabet one step deeper, plus the large alphabet (4 segments, key depth 3) to depth 2.
+    plan = [("small", 3, 10**9)] if ctx.quick else [("small", 4, 10**9), ("large", 2, 10**9)]
+    totals = {"states": 0, "transitions": 0, "nontrivial": 0, "max_history": 0, "runs": []}
+    caps = []
+    for alpha, depth, cap in plan:
+        caps += bfs(ctx, alpha, depth, cap, totals)
     ctx.cover(
-        states=states,
-        transitions=transitions,
-        traces_validated_against_impl=transitions,
-        evaluations=transitions + obs_states,
-        distinct_nontrivial=len(nontrivial),
+        states=totals["states"],
+        transitions=totals["transitions"],
+        traces_validated_against_impl=totals["transitions"],
+        evaluations=totals["transitions"] + totals["states"],
+        distinct_nontrivial=totals["nontrivial"],
         rule="a case is one transition (state, operation) executed on the real Namespace and on the model, or the "
         "full observer sweep on one state; distinct_nontrivial = number of distinct non-empty canonical states reached",
-        exhaustive=not caps_hit,
-        closed=closed,
-        depth_completed=depth_completed,
-        states_per_depth=per_depth,
-        operations=len(ops),
-        keys=op_keys(tier),
-        observer_keys=len(key_universe(tier)),
+        exhaustive=not caps,
+        runs=totals["runs"],
         values=VALUES,
-        caps_hit=caps_hit,
-        bounds={"depth": max_depth, "key_depth": 2 if ctx.quick else 3, "segments": segments(tier)},
+        caps_hit=caps,
+        bounds={"plan": [{"alphabet": a, "history_length": d} for a, d, _ in plan]},
     )
     ctx.assume("dict-valued leaves are opaque values of the nested mapping (assignment below one replaces it by a branch)")
-    ctx.require(states > 500, "more than 500 states explored")
-    ctx.require(len(nontrivial) > 100, "more than 100 distinct non-empty states")
-    ctx.require(any(len(h) >= 2 for h in seen.values()), "states at depth >= 2 reached")
+    ctx.require(totals["states"] > 500, "more than 500 states explored")
+    ctx.require(totals["nontrivial"] > 100, "more than 100 distinct non-empty states")
+    ctx.require(totals["max_history"] >= 2, "states at depth >= 2 reached")
